@@ -429,7 +429,8 @@ def main(modname, tier, seed):
         by_finding.setdefault(kf, []).append("%s x%d" % (sig, cnt))
     for kf, sigs in by_finding.items():
         print("KNOWN-FINDING: property=%s %s [%s]" % (pid, kf, "; ".join(sigs)))
-    budget = int(os.environ.get("VERIF_SHRINK_BUDGET", "150" if tier == "quick" else "1500"))
+    default_budget = getattr(check, "SHRINK_BUDGET", {}).get(tier, 150 if tier == "quick" else 1500)
+    budget = int(os.environ.get("VERIF_SHRINK_BUDGET", default_budget))
     rc = 0
     sig_report = {}
     for sig, (cnt, case, msg) in sorted(new_sigs.items()):
